@@ -1204,3 +1204,366 @@ func specParse(toks []token) (ASTNode, bool) {
 	}
 	return e, true
 }
+
+// ---------------------------------------------------------------------------
+// Built-in functions (C09): what each function returns for well-typed
+// arguments, after the JMESPath function specification. Folds are written as
+// recursions from left to right so that the implementation's loops can be
+// related to them step by step.
+
+func specCeil(f float64) float64  { return math.Ceil(f) }
+func specFloor(f float64) float64 { return math.Floor(f) }
+
+// length: code points of a string, elements of an array, members of an object
+func specLength(v interface{}) float64 {
+	switch t := v.(type) {
+	case string:
+		return float64(utf8.RuneCountInString(t))
+	case []interface{}:
+		return float64(len(t))
+	case map[string]interface{}:
+		return float64(len(t))
+	}
+	return 0
+}
+
+func specType(v interface{}) string {
+	switch v.(type) {
+	case float64:
+		return "number"
+	case string:
+		return "string"
+	case bool:
+		return "boolean"
+	case []interface{}:
+		return "array"
+	case map[string]interface{}:
+		return "object"
+	}
+	return "null"
+}
+
+// not_null: the first argument that is not null, else null
+func specNotNullFrom(args []interface{}, i int) interface{} {
+	if i < 0 || i >= len(args) {
+		return nil
+	}
+	if args[i] != nil {
+		return args[i]
+	}
+	return specNotNullFrom(args, i+1)
+}
+
+// sum / avg: left-to-right IEEE sum
+func specSumFrom(a []interface{}, i int, acc float64) float64 {
+	if i < 0 || i >= len(a) {
+		return acc
+	}
+	n, _ := a[i].(float64)
+	return specSumFrom(a, i+1, acc+n)
+}
+
+// max / min of numbers: the fold "keep the later one only if strictly greater (smaller)"
+func specMaxNumFrom(a []interface{}, i int, best float64) float64 {
+	if i < 0 || i >= len(a) {
+		return best
+	}
+	n, _ := a[i].(float64)
+	if n > best {
+		return specMaxNumFrom(a, i+1, n)
+	}
+	return specMaxNumFrom(a, i+1, best)
+}
+
+func specMinNumFrom(a []interface{}, i int, best float64) float64 {
+	if i < 0 || i >= len(a) {
+		return best
+	}
+	n, _ := a[i].(float64)
+	if n < best {
+		return specMinNumFrom(a, i+1, n)
+	}
+	return specMinNumFrom(a, i+1, best)
+}
+
+func specMaxStrFrom(a []interface{}, i int, best string) string {
+	if i < 0 || i >= len(a) {
+		return best
+	}
+	s, _ := a[i].(string)
+	if s > best {
+		return specMaxStrFrom(a, i+1, s)
+	}
+	return specMaxStrFrom(a, i+1, best)
+}
+
+func specMinStrFrom(a []interface{}, i int, best string) string {
+	if i < 0 || i >= len(a) {
+		return best
+	}
+	s, _ := a[i].(string)
+	if s < best {
+		return specMinStrFrom(a, i+1, s)
+	}
+	return specMinStrFrom(a, i+1, best)
+}
+
+// map: one result per element, nulls kept, the expression evaluated with the element as current node
+func specMapFrom(ref ASTNode, a []interface{}, i int, acc []interface{}) ([]interface{}, bool) {
+	if i < 0 || i >= len(a) {
+		return acc, true
+	}
+	x, ok := specEval(ref, a[i])
+	if !ok {
+		return nil, false
+	}
+	return specMapFrom(ref, a, i+1, append(acc, x))
+}
+
+// keys: one entry per member, in the (unspecified) enumeration order
+func specKeysFrom(m map[string]interface{}, i int, acc []interface{}) []interface{} {
+	if i < 0 || i >= len(m) {
+		return acc
+	}
+	return specKeysFrom(m, i+1, append(acc, specObjKeyAt(m, i)))
+}
+
+// merge: members of later arguments replace those of earlier ones
+func specPutAllFrom(acc map[string]interface{}, m map[string]interface{}, j int) map[string]interface{} {
+	if j < 0 || j >= len(m) {
+		return acc
+	}
+	k := specObjKeyAt(m, j)
+	return specPutAllFrom(specObjPut(acc, k, m[k]), m, j+1)
+}
+
+func specMergeFrom(args []interface{}, i int, acc map[string]interface{}) map[string]interface{} {
+	if i < 0 || i >= len(args) {
+		return acc
+	}
+	m, _ := args[i].(map[string]interface{})
+	return specMergeFrom(args, i+1, specPutAllFrom(acc, m, 0))
+}
+
+// max_by / min_by with numeric keys: the first element whose key is extremal
+// (ok is false when a key fails to evaluate or is not a number)
+func specMaxByNumFrom(ref ASTNode, a []interface{}, i int, bestVal float64, bestItem interface{}) (interface{}, bool) {
+	if i < 0 || i >= len(a) {
+		return bestItem, true
+	}
+	k, ok := specEval(ref, a[i])
+	if !ok {
+		return nil, false
+	}
+	n, isNum := k.(float64)
+	if !isNum {
+		return nil, false
+	}
+	if n > bestVal {
+		return specMaxByNumFrom(ref, a, i+1, n, a[i])
+	}
+	return specMaxByNumFrom(ref, a, i+1, bestVal, bestItem)
+}
+
+func specMinByNumFrom(ref ASTNode, a []interface{}, i int, bestVal float64, bestItem interface{}) (interface{}, bool) {
+	if i < 0 || i >= len(a) {
+		return bestItem, true
+	}
+	k, ok := specEval(ref, a[i])
+	if !ok {
+		return nil, false
+	}
+	n, isNum := k.(float64)
+	if !isNum {
+		return nil, false
+	}
+	if n < bestVal {
+		return specMinByNumFrom(ref, a, i+1, n, a[i])
+	}
+	return specMinByNumFrom(ref, a, i+1, bestVal, bestItem)
+}
+
+func specMaxByStrFrom(ref ASTNode, a []interface{}, i int, bestVal string, bestItem interface{}) (interface{}, bool) {
+	if i < 0 || i >= len(a) {
+		return bestItem, true
+	}
+	k, ok := specEval(ref, a[i])
+	if !ok {
+		return nil, false
+	}
+	s, isStr := k.(string)
+	if !isStr {
+		return nil, false
+	}
+	if s > bestVal {
+		return specMaxByStrFrom(ref, a, i+1, s, a[i])
+	}
+	return specMaxByStrFrom(ref, a, i+1, bestVal, bestItem)
+}
+
+func specMinByStrFrom(ref ASTNode, a []interface{}, i int, bestVal string, bestItem interface{}) (interface{}, bool) {
+	if i < 0 || i >= len(a) {
+		return bestItem, true
+	}
+	k, ok := specEval(ref, a[i])
+	if !ok {
+		return nil, false
+	}
+	s, isStr := k.(string)
+	if !isStr {
+		return nil, false
+	}
+	if s < bestVal {
+		return specMinByStrFrom(ref, a, i+1, s, a[i])
+	}
+	return specMinByStrFrom(ref, a, i+1, bestVal, bestItem)
+}
+
+// contains on arrays: some element is deeply equal to the searched value
+func specContainsFrom(a []interface{}, i int, x interface{}) bool {
+	if i < 0 || i >= len(a) {
+		return false
+	}
+	return specDeepEq(a[i], x) || specContainsFrom(a, i+1, x)
+}
+
+// join: the strings of the array
+func specStrsFrom(a []interface{}, i int, acc []string) []string {
+	if i < 0 || i >= len(a) {
+		return acc
+	}
+	s, _ := a[i].(string)
+	return specStrsFrom(a, i+1, append(acc, s))
+}
+
+func specStartsWith(s string, prefix string) bool { return strings.HasPrefix(s, prefix) }
+func specEndsWith(s string, suffix string) bool   { return strings.HasSuffix(s, suffix) }
+func specStrContains(s string, sub string) bool   { return strings.Contains(s, sub) }
+
+// specDecodesTo: text is JSON text of the value v
+func specDecodesTo(text string, v interface{}) bool {
+	var x interface{}
+	err := json.Unmarshal([]byte(text), &x)
+	return err == nil && specDeepEq(x, v)
+}
+
+// to_number: numbers stay, numerals that denote a finite JSON number convert, everything else is null
+func specToNumber(v interface{}) interface{} {
+	if n, ok := v.(float64); ok {
+		return n
+	}
+	if s, ok := v.(string); ok {
+		f, err := strconv.ParseFloat(s, 64)
+		if err != nil || !specFinite(f) {
+			return nil
+		}
+		return f
+	}
+	return nil
+}
+
+func specJoin(parts []string, sep string) string { return strings.Join(parts, sep) }
+
+// avg: null for no numbers, else the left-to-right sum divided by the count
+func specAvg(a []interface{}) interface{} {
+	if len(a) == 0 {
+		return nil
+	}
+	return specSum(a) / float64(len(a))
+}
+
+// max / min: null for an empty array; numbers compare numerically, strings by code point
+func specMax(a []interface{}) interface{} {
+	if len(a) == 0 {
+		return nil
+	}
+	if n, ok := a[0].(float64); ok {
+		return specMaxNumFrom(a, 1, n)
+	}
+	s, _ := a[0].(string)
+	return specMaxStrFrom(a, 1, s)
+}
+
+func specMin(a []interface{}) interface{} {
+	if len(a) == 0 {
+		return nil
+	}
+	if n, ok := a[0].(float64); ok {
+		return specMinNumFrom(a, 1, n)
+	}
+	s, _ := a[0].(string)
+	return specMinStrFrom(a, 1, s)
+}
+
+func specSum(a []interface{}) float64 { return specSumFrom(a, 0, 0.0) }
+
+// map(&expr, array)
+func specMap(ref ASTNode, a []interface{}) ([]interface{}, bool) {
+	return specMapFrom(ref, a, 0, specEmptyList())
+}
+
+// max_by / min_by: null for an empty array; the key of the first element decides
+// whether keys are compared as numbers or as strings, every other key must have that type
+func specMaxBy(ref ASTNode, a []interface{}) (interface{}, bool) {
+	if len(a) == 0 {
+		return nil, true
+	}
+	k, ok := specEval(ref, a[0])
+	if !ok {
+		return nil, false
+	}
+	if n, isNum := k.(float64); isNum {
+		return specMaxByNumFrom(ref, a, 1, n, a[0])
+	}
+	if s, isStr := k.(string); isStr {
+		return specMaxByStrFrom(ref, a, 1, s, a[0])
+	}
+	return nil, false
+}
+
+func specMinBy(ref ASTNode, a []interface{}) (interface{}, bool) {
+	if len(a) == 0 {
+		return nil, true
+	}
+	k, ok := specEval(ref, a[0])
+	if !ok {
+		return nil, false
+	}
+	if n, isNum := k.(float64); isNum {
+		return specMinByNumFrom(ref, a, 1, n, a[0])
+	}
+	if s, isStr := k.(string); isStr {
+		return specMinByStrFrom(ref, a, 1, s, a[0])
+	}
+	return nil, false
+}
+
+// sort_by: the order on the elements that the keys induce (numbers numerically, strings by code point)
+func specKeyLessNum(ref ASTNode, x interface{}, y interface{}) bool {
+	kx, _ := specEval(ref, x)
+	ky, _ := specEval(ref, y)
+	nx, _ := kx.(float64)
+	ny, _ := ky.(float64)
+	return nx < ny
+}
+
+func specKeyLessStr(ref ASTNode, x interface{}, y interface{}) bool {
+	kx, _ := specEval(ref, x)
+	ky, _ := specEval(ref, y)
+	sx, _ := kx.(string)
+	sy, _ := ky.(string)
+	return sx < sy
+}
+
+// the key of x evaluates to a number (a string)
+func specKeyIsNum(ref ASTNode, x interface{}) bool {
+	k, ok := specEval(ref, x)
+	_, isNum := k.(float64)
+	return ok && isNum
+}
+
+func specKeyIsStr(ref ASTNode, x interface{}) bool {
+	k, ok := specEval(ref, x)
+	_, isStr := k.(string)
+	return ok && isStr
+}
